@@ -6,19 +6,19 @@ namespace Pcore.Lat
 variable (cfg : Cfg) (sfh : Bool)
 
 theorem frag_leaf (t : Ty) (h : match t with
-    | .undef | .dflt | .numeric | .str | .bin | .int _ | .float _ _ | .bool _ | .tspan _ | .strSz _ | .strVal _ | .enum _ _
+    | .undef | .dflt | .numeric | .str | .bin | .int _ | .float _ _ | .bool _ | .tspan _ | .tstamp _ | .strSz _ | .strVal _ | .enum _ _
     | .pattern _ | .regexp _ | .object _ | .scalar | .scalarData | .any | .coll _ | .data | .richData => True
     | _ => False) : t.Frag sfh := by
   cases t <;> simp only [] at h <;> (first | contradiction | (unfold Ty.Frag; trivial))
 
 theorem wfl (t : Ty) (h : match t with
-    | .undef | .dflt | .numeric | .str | .bin | .int _ | .float _ _ | .bool _ | .tspan _ | .strSz _ | .strVal _
+    | .undef | .dflt | .numeric | .str | .bin | .int _ | .float _ _ | .bool _ | .tspan _ | .tstamp _ | .strSz _ | .strVal _
     | .pattern _ | .regexp _ | .object _ | .scalar | .scalarData | .any | .coll _ | .data | .richData => True
     | _ => False) : Ty.WF cfg t := by
   cases t <;> simp only [] at h <;> (first | contradiction | (unfold Ty.WF; trivial))
 
 theorem usl (t : Ty) (h : match t with
-    | .undef | .dflt | .numeric | .str | .bin | .int _ | .float _ _ | .bool _ | .tspan _ | .strSz _ | .strVal _ | .enum _ _
+    | .undef | .dflt | .numeric | .str | .bin | .int _ | .float _ _ | .bool _ | .tspan _ | .tstamp _ | .strSz _ | .strVal _ | .enum _ _
     | .pattern _ | .regexp _ | .object _ | .scalar | .scalarData | .any | .coll _ | .data | .richData => True
     | _ => False) : t.US := by
   cases t <;> simp only [] at h <;> (first | contradiction | (unfold Ty.US; trivial))
@@ -523,6 +523,7 @@ theorem sound_rich_r (n : Nat) (ih : Sound cfg sfh n) (a : Ty) (v : Val) (hw : a
     | float f => exact viaScalar (by unfold inst; rfl)
     | bool b => exact viaScalar (by unfold inst; rfl)
     | tspan b => exact viaScalar (by unfold inst; rfl)
+    | tstamp b => exact viaScalar (by unfold inst; rfl)
     | regexp b => exact viaScalar (by unfold inst; rfl)
     | binary bs =>
       exact ih a .bin _ (by simp [Ty.w]; omega) ⟨H.fa, frag_leaf sfh _ trivial, H.wa, wfl cfg _ trivial, usl _ trivial, H.ok, H.tv⟩ hbin (by unfold inst; rfl)
